@@ -39,6 +39,8 @@ func (i IntSet) Insert(val int) IntSet {
 		return IntSet{[]int{val}}
 	}
 	i2 := i
+	// clip the capacity so that the append in insertValue can never write into the receiver's backing array
+	i2.data = i2.data[:len(i2.data):len(i2.data)]
 	i2.insertValue(val)
 	return i2
 }
